@@ -99,6 +99,13 @@ def _inv_case(rng):
     style = rng.choice(["pool", "pool", "pool", "pow2", "pow2", "mono", "const", "zigzag", "zigzag", "float", "near"])
     x, y = _curve(rng, style)
     ts = [Fraction(float(t)) for t in _targets(rng, y, style)]  # every input is a double
+    if style in ("pool", "pow2", "zigzag", "mono") and rng.random() < 0.2:
+        # same curve at a tiny (or huge) magnitude: y and the targets scaled by an exact power of two, so that the
+        # products of two differences y - t leave the binary64 range while every difference stays exact
+        sc2 = Fraction(2) ** rng.choice([-550, -600, -520, 520])
+        y = [v * sc2 for v in y]
+        ts = [t * sc2 for t in ts]
+        style = style + "-scaled"
     scalar = rng.random() < 0.35
     if scalar:
         ts = ts[:1] if ts else [Fraction(rng.randint(-3, 3))]
@@ -162,8 +169,10 @@ def _tam_case(rng, k):
     scalar = rng.random() < 0.4
     if scalar:
         ts = ts[:1]
+    cls = "group" if (ep == 0 and en == 0 and rng.random() < 0.45) else "scores"   # GroupScores has no easy samples
     return {"kind": "tam", "style": style, "pos": [enc(v) for v in pos], "neg": [enc(v) for v in neg], "ep": ep, "en": en,
-            "sc": sc, "ec": ec, "metric": metric, "points": points, "t": [enc(v) for v in ts], "scalar": scalar}
+            "sc": sc, "ec": ec, "metric": metric, "points": points, "t": [enc(v) for v in ts], "scalar": scalar,
+            "cls": cls, "gseed": rng.randint(0, 10**6)}
 
 
 def gen_cases(rng, tier):
@@ -217,7 +226,18 @@ def run_impl(case):
         return _canon(res, case["scalar"])
     pos = np.array([fl(v) for v in case["pos"]], dtype=float)
     neg = np.array([fl(v) for v in case["neg"]], dtype=float)
-    s = Scores(pos, neg, nb_easy_pos=case["ep"], nb_easy_neg=case["en"], score_class=case["sc"], equal_class=case["ec"])
+    if case.get("cls") == "group":
+        # the same data as a GroupScores object (arrays given unsorted, arbitrary group labels): threshold_at_metric is
+        # inherited and has to give what it gives on the plain object
+        import random as _random
+        from score_analysis import GroupScores
+
+        g = _random.Random(case.get("gseed", 0))
+        s = GroupScores(pos, neg, pos_groups=np.array([g.choice([0, 1, 2]) for _ in pos], dtype=int),
+                        neg_groups=np.array([g.choice([0, 1, 2]) for _ in neg], dtype=int),
+                        score_class=case["sc"], equal_class=case["ec"])
+    else:
+        s = Scores(pos, neg, nb_easy_pos=case["ep"], nb_easy_neg=case["en"], score_class=case["sc"], equal_class=case["ec"])
     pts_arg = case["points"]
     if isinstance(pts_arg, list):
         pts_arg = np.array([fl(v) for v in pts_arg], dtype=float)
@@ -242,6 +262,13 @@ def run_impl(case):
         out["by_callable"] = _canon(by_call, case["scalar"])
     except ValueError:
         out["callable_raised"] = "ValueError"
+    # the same metric at a tiny magnitude (values and target scaled by 2^-550: exact, and the solutions are unchanged)
+    tiny = 2.0 ** -550
+    try:
+        by_tiny = s.threshold_at_metric(target * tiny, lambda sample, points: getattr(Scores, case["metric"])(sample, points) * tiny, pts_arg)
+        out["by_tiny"] = _canon(by_tiny, case["scalar"])
+    except ValueError:
+        out["tiny_raised"] = "ValueError"
     if "pts" in rec:
         out["pts"] = [enc(float(v)) for v in rec["pts"].reshape(-1)]
         out["pts_ndim"] = int(rec["pts"].ndim)
@@ -413,6 +440,9 @@ def oracle(case, res):
     # exactly the inversion of those samples
     if r["by_name"] != r["by_callable"]:
         fails.append(("C17/tam/name", f"metric by name and the same metric as a callable differ: {r['by_name']} vs {r['by_callable']}"))
+    if "by_tiny" in r and r["by_tiny"] != r["by_callable"]:
+        fails.append(("C17/tam/scale", f"metric and target both scaled by 2^-550 (exact): result {r['by_tiny']['sols']} differs from "
+                      f"the unscaled {r['by_callable']['sols']}"))
     if r["by_name"] != r["direct"]:
         fails.append(("C17/tam/inversion", f"result {r['by_name']['sols']} differs from invert_pl_function applied to the metric at the "
                       f"chosen points {r['direct']['sols']}"))
